@@ -144,6 +144,16 @@ def linear(e, env=None, depth=0):
             if isinstance(c, ast.Constant) and isinstance(c.value, int):
                 r = linear(o, env, depth + 1)
                 return None if r is None else {k: v * c.value for k, v in r.items() if v * c.value}
+        # product of two canonical forms (degree <= 2): monomials are '*'-joined sorted atoms
+        a = linear(e.left, env, depth + 1)
+        b = linear(e.right, env, depth + 1)
+        if a is not None and b is not None and all("*" not in k for k in a) and all("*" not in k for k in b):
+            out: dict = {}
+            for ka, va in a.items():
+                for kb, vb in b.items():
+                    k = "*".join(sorted(x for x in (ka, kb) if x))
+                    out[k] = out.get(k, 0) + va * vb
+            return {k: v for k, v in out.items() if v}
     # opaque atom: calls, attributes, subscripts are terms by their text (after copy propagation of names inside)
     if isinstance(e, (ast.Call, ast.Attribute, ast.Subscript)):
         return {ast.unparse(_subst(e, env)): 1}
